@@ -120,6 +120,9 @@ void harness(void)
 			     g_m.list_end == tail0 &&
 			     (ret == 0) == (g_faults == 0),
 			     "C03.meta.block.written");
+		VERIF_ASSERT(g_wr[0].n <= off0 + 2 &&
+			     g_wr[0].n <= SQFS_META_BLOCK_SIZE + 2,
+			     "C03.meta.block.not_larger");
 		VERIF_ASSERT(g_wr[0].off + g_wr[0].n == g_fsize || ret != 0,
 			     "C03.meta.block.appended");
 		hdr = (sqfs_u16)(g_wr[0].b0 | (g_wr[0].b1 << 8));
